@@ -166,7 +166,8 @@ func lineBounds(c *sc.Case, face *font.Face, o *shaping.Output) (checked bool, e
 // the face's horizontal advance under that same scale.
 func nominalAdvances(c *sc.Case, face *font.Face, info *sc.FaceInfo, o *shaping.Output) (checked int, err error) {
 	tr := info.Traits
-	if tr.GPOS || tr.Kern || tr.Kerx || tr.Morx || !face.Font.Trak.IsEmpty() {
+	ft := face.Font
+	if tr.GPOS || tr.Kern || tr.Kerx || tr.Morx || !ft.Trak.IsEmpty() || len(ft.GPOS.Lookups) != 0 || len(ft.Kern) != 0 || len(ft.Kerx) != 0 || len(ft.Morx) != 0 {
 		return 0, nil
 	}
 	vertical := o.Direction.IsVertical()
@@ -578,6 +579,23 @@ func checkCase(t ev.TB, c sc.Case) {
 	if c.RunEnd-c.RunStart > 64 {
 		labels = append(labels, "run:long(>64)")
 	}
+	if len(c.Vars) > 0 || len(c.Coords) > 0 {
+		labels = append(labels, "instance:variations")
+	}
+	if c.XPpem != 0 || c.YPpem != 0 {
+		labels = append(labels, "instance:ppem")
+	}
+	if c.Synth != nil {
+		labels = append(labels, "font:synth:"+c.Synth.Kind)
+	}
+	if c.Dir >= 2 && c.Orient != 2 {
+		for _, f := range c.Features {
+			if f.Value != 0 && (f.Name == "kern" || f.Name == "vkrn" || f.Name == "vpal" || f.Name == "palt") {
+				labels = append(labels, "vertical:explicit-positioning-feature")
+				break
+			}
+		}
+	}
 	if st.wordEligible > 0 {
 		labels = append(labels, "word-separator:eligible")
 	}
@@ -611,6 +629,18 @@ func TestPropGeometry(t *testing.T) {
 	o.MaxLen = ev.Scale(48, 256)
 	rapid.Check(t, func(t *rapid.T) {
 		checkCase(t, sc.Draw(t, -1, o))
+	})
+}
+
+// TestPropGeometrySynth: generated fonts with positioning tables (internal/synthfont kinds gpos-rules —
+// every value-record field with hinting Device tables of the three formats, cursive and mark
+// attachment — and pair-classes), with pixels per em in the device range, all directions and
+// orientations, explicit positioning features.
+func TestPropGeometrySynth(t *testing.T) {
+	o := genOpts
+	o.SynthPositioning = true
+	rapid.Check(t, func(t *rapid.T) {
+		checkCase(t, sc.DrawSynth(t, o))
 	})
 }
 
